@@ -124,6 +124,21 @@ CLAIMS = {
         "liveness after bad requests) is not modelled; non-finite vectors on the streaming write paths are refused by the engine "
         "pre-flight since fix d09e19e (before: after the log append). Trusted: Lean kernel, hand models validated by correspondence.",
    design="§3 C15"),
+ "C17": dict(
+   engine="mem",
+   technique="Lean 4 proof over a model regenerated from simd.rs / ann_backend.rs by translators (one bounds theorem per raw load, for every length) + fenced-allocator execution of the real kernels and index",
+   text="Regenerated on every run: 84 theorems `<kernel>_load_<n>` (each raw vector load of every unsafe SIMD kernel — AVX-512, AVX2, "
+        "SSE2, NEON — reads lanes inside the slice for EVERY length, incl. lengths not a multiple of the width), proved by omega; "
+        "C17_vector_in_bounds / C17_neighbor_in_bounds / C17_count_in_bounds / C17_visited_in_bounds / C17_len_exact over the "
+        "generated PackedLevel0 and visited-bitset arithmetic for every cap, dimension and node count; C17_*_translation_complete "
+        "(translators resolved every access; site count = obligation count); C17_neighbour_ids_guarded (lint). Tie: translators "
+        "re-read the current source; every kernel wrapper is executed on guard-page-abutted slices of each length 0..130+ and the "
+        "real HNSW index is built/searched under an allocator that ends every block at a PROT_NONE page.",
+   note="Partial: that every dense id reaching an `_unchecked` accessor is below the node count (graph-closure invariant of HNSW "
+        "construction) is linted and exercised, not proved; over-reads inside spare Vec capacity are invisible to the fence; usize "
+        "overflow not modelled; NEON proved but not executed on this host. Trusted: Lean kernel, the two translators, the "
+        "intrinsic->lanes table.",
+   design="§3 C17"),
 }
 
 NOT_APPLICABLE = {
